@@ -42,3 +42,12 @@ MUTANTS += [
        "        source_txBody.unclear_content()\n        for p in source_txBody.p_lst:\n            target_txBody.append(p)\n\n        # ---neither source nor target can be left without ps---\n")],
      "R3.7 CT_TableCell.append_ps_from"),
 ]
+
+MUTANTS += [
+    ("default-bgPr-parsed-once", "the default p:bgPr is parsed once at import and inserted as is",
+     [("src/pptx/oxml/slide.py", "        xml = \"<p:bgPr %s>\\n\" \"  <a:noFill/>\\n\" \"  <a:effectLst/>\\n\" \"</p:bgPr>\" % nsdecls(\"a\", \"p\")\n        bgPr = cast(CT_BackgroundProperties, parse_xml(xml))\n",
+       "        bgPr = _NOFILL_BGPR\n"),
+      ("src/pptx/oxml/slide.py", "class CT_BackgroundProperties(BaseOxmlElement):",
+       "_NOFILL_BGPR = parse_xml(\"<p:bgPr %s><a:noFill/><a:effectLst/></p:bgPr>\" % nsdecls(\"a\", \"p\"))\n\n\nclass CT_BackgroundProperties(BaseOxmlElement):")],
+     "R3.8 CT_Background.add_noFill_bgPr@_insert_bgPr"),
+]
